@@ -131,10 +131,19 @@ Definition emit : K :=
     let s' := mkst (fst v :: outs s) (S (nout s)) (cap s) (nextid s) (inputs s) (cells s) (repsens s) (steps s) in
     if Nat.leb (cap s) (S (nout s)) then (inr XStop, s') else (inl tt, s').
 
+(* raise a jq error; a message TEXT (anything but the payload of error(x) / a plain message) embeds
+   previews of values: it is withheld when the input holds numbers whose Go representation prints
+   differently (then a `catch` that looks at it makes the case a skip) *)
+Definition raise_err (c : errclass) (val : option jv) : M unit :=
+  fun s => (inr (XErr O c (match c with
+                           | EUser | EPlain => val
+                           | _ => if repsens s then None else val
+                           end)), s).
+
 Definition lift (r : nres) (k : jv -> M unit) : M unit :=
   match r with
   | NOk v => k v
-  | NErr c val => raise (XErr O c val)
+  | NErr c val => raise_err c val
   | NSkip why => raise (XSkip why)
   end.
 
@@ -214,7 +223,10 @@ Definition intact (rs : bool) (v : tv) (p : pstate) : tri :=
 Definition check_intact (v : tv) (p : pstate) (bad : errclass) : M unit :=
   fun s => match intact (repsens s) v p with
            | Yes => (inl tt, s)
-           | No => (inr (XErr O bad None), s)
+           | No => raise_err bad (match bad with
+                                  | EInvalidPathIter => msg_invalid_path_iter (fst v)
+                                  | _ => msg_invalid_path (fst v)
+                                  end) s
            | Unknown => (inr (XSkip (codes "path-identity")), s)
            end.
 
@@ -542,7 +554,7 @@ Definition iterate (x : tv) (ps : pst) (k : K) : M unit :=
   match fst x with
   | VArr l => guarded (combine (map VInt (iota (List.length l) 0)) l)
   | VObj kvs => guarded (map (fun kv => (VStr (fst kv), snd kv)) kvs)
-  | _ => raise (XErr O EIterator None)
+  | _ => raise_err EIterator (msg_iterator (fst x))
   end.
 
 (* the native _range iterator (func.go rangeIter) *)
@@ -878,8 +890,8 @@ Definition step_eval_t (E : evals) (rho : env) (t : term) (v : tv) (ps : pst) (k
           | None =>
               ev_t E rho t' v ps (fun x ps' =>
                 match op with
-                | OpAdd => lift (match fst x with VNum _ => NOk (fst x) | _ => err EUnaryType end) (fun w => k (plain w) ps')
-                | OpSub => lift (match fst x with VNum m => NOk (VNum (num_neg m)) | _ => err EUnaryType end) (fun w => k (plain w) ps')
+                | OpAdd => lift (match fst x with VNum _ => NOk (fst x) | _ => err_unary "plus" (fst x) end) (fun w => k (plain w) ps')
+                | OpSub => lift (match fst x with VNum m => NOk (VNum (num_neg m)) | _ => err_unary "negate" (fst x) end) (fun w => k (plain w) ps')
                 | _ => skipM "unary-operator"
                 end)
           end
